@@ -229,8 +229,8 @@ class CameraViewPort:
     @staticmethod
     def read(data: bytes) -> "CameraViewPort":
         "Read a CameraViewPort from bytes"
-        origin = VEC2I.read(data[:8])
-        size = VEC2I.read(data[8:])
+        origin = VEC2I.read(data[:8])[0]
+        size = VEC2I.read(data[8:16])[0]
         return CameraViewPort(origin, size)
 
     def write(self) -> bytes:
